@@ -32,12 +32,13 @@ META = {
                    'fromisoformat/fromtimestamp/UUID/Decimal/Path/pytimeparse computed by the real functions on the leaves of each '
                    'document). Input immutability is carried by the direct predicate only (a pure model cannot mutate). '
                    'v1: direct predicate only (no theorem).'),
-    'rule': ('class models: every leaf type x every container position to depth 2 (quick) / 3 (thorough: a seed-rotated quarter of the depth-3 positions) packed into classes of <= 4 fields + '
-             'random class models (quick 60, thorough 500); per class: 1 well-typed document (JSON image of a conforming instance) + '
-             'k mutated documents (quick 4, thorough 6): one position replaced by junk from a 40-value pool (null, bools, huge int, nan, inf, '
-             "'', numeric strings, lists, objects), keys dropped/renamed/added, lists truncated/extended/doubled. Each document x {default, v1, "
-             'from_json}. Non-trivial: the document differs from the well-typed one or the class has a container/union/class layer. '
-             'Distinct: distinct (class digest | document digest | engine).'),
+    'rule': ('class models: every leaf type x every container position (19 contexts) to depth 2 (quick) / 3 (thorough: a seed-rotated quarter of depth 3) in classes of <= 4 fields '
+             '+ random class models (quick 60, thorough 500) + 12 regression models of repaired findings + models with two DIFFERENT Enum classes of one __name__ on different '
+             'fields (quick 8, thorough 40). Names: 30% from the wider snake grammar; Literals include same-typed numeric member sets (Literal[0,1,2], Literal[True]). '
+             'Per class: 1 well-typed document + k random mutations (quick 4, thorough 6: junk from a 40-value pool, keys dropped/renamed/added, lists truncated/extended/doubled) '
+             '+ m systematic single-position mutations sampled from the enumeration over EVERY position (quick 6, thorough 10): scalar -> each ==-but-differently-typed value '
+             '(1 / 1.0 / True, "1" / 1), list -> one shorter / one longer, position -> null. Each document x {default, v1, from_json}. '
+             'Non-trivial: the document differs from the well-typed one or the class has a container/union/class layer. Distinct: distinct (class digest | document digest | engine).'),
     'trusted_base': ['model coq/model/CoreLoad.v (parser per annotation, scalar coercions, Union scan + tag dispatch, Literal, tuple arity window, '
                      'TypedDict required keys, cls_fromdict key resolution and defaults)',
                      'harness/impl/core_rt.py conforms(): independent Python conformance checker',
@@ -168,7 +169,7 @@ def canon_show(s):
 def make_cases(ctx):
     cases = []
     r = ctx.sub_rng('sys')
-    g = Gen(r, {'neg_timedelta': False, 'nonfinite': False})
+    g = Gen(r, {'neg_timedelta': False, 'nonfinite': False, 'ext_names': 0.3, 'same_named_enums': 0.4})
     items = systematic_types(g, 2 if ctx.tier == 'quick' else 3)
     if ctx.tier != 'quick':
         d3 = [it for it in items if it[0].count('<') == 2]
@@ -210,9 +211,27 @@ def make_cases(ctx):
         root = g3.root([copy.deepcopy(ty)], names=['val'], bases=['JSONWizard'] if ri % 2 == 0 else [])
         cases.append({'root': root, 'value': g3.value(root), 'seed': ri, 'n_mut': 2, 'labels': ['regress'], 'src': 'regress',
                       'extra_docs': [{'val': v} for v in vals]})
+    # declaration styles: two DIFFERENT Enum classes with the same __name__ on different fields of one class
+    # (directly, in a list, Optional, as dict value), members overlapping in value
+    g5 = Gen(ctx.sub_rng('samename'), {'ext_names': 0.3})
+    for ri in range(8 if ctx.tier == 'quick' else 40):
+        mix = g5.r.choice(['plain', 'str', 'int'])
+        def mk(off):
+            i = g5.fresh()
+            if mix == 'int':
+                mem = [['M%d' % j, {'v': 'int', 'x': str(v)}] for j, v in enumerate([1, 2 + off, 3])]
+            else:
+                mem = [['M%d' % j, {'v': 'str', 'x': v}] for j, v in enumerate(['open', ['closed', 'done'][off], 'held'])]
+            return {'t': 'enum', 'id': i, 'name': 'Status', 'mix': mix, 'members': mem}
+        e1, e2 = mk(0), mk(1)
+        w = g5.r.choice([None, 'list', 'opt', 'dictval', 'tuple2'])
+        t2 = e2 if w is None else g5.wrap(w, e2)
+        tys = [e1, t2] if ri % 2 == 0 else [t2, e1]
+        root = g5.root(tys, bases=['JSONWizard'] if ri % 2 == 0 else [])
+        cases.append({'root': root, 'value': g5.value(root), 'seed': 1000 + ri, 'n_mut': 2, 'labels': ['samename'] * 2, 'src': 'samename'})
     r2 = ctx.sub_rng('rand')
     for j in range(60 if ctx.tier == 'quick' else 500):
-        g2 = Gen(r2, {'neg_timedelta': False, 'nonfinite': False})
+        g2 = Gen(r2, {'neg_timedelta': False, 'nonfinite': False, 'ext_names': 0.3, 'same_named_enums': 0.4})
         nf = r2.choice([1, 2, 3, 4])
         tys = [g2.rand_type(r2.choice([1, 2, 3])) for _ in range(nf)]
         defaults = {}
@@ -233,14 +252,17 @@ def make_cases(ctx):
         tag_nested(root)
         cases.append({'root': root, 'value': g2.value(root), 'seed': r2.getrandbits(48), 'n_mut': n_mut,
                       'labels': ['rand'] * nf, 'src': 'random'})
+    for c in cases:
+        c.setdefault('n_sys', 6 if ctx.tier == 'quick' else 10)
     return cases
 
 
 def strip(c, extra=None):
-    d = {k: c[k] for k in ('root', 'value', 'seed', 'n_mut', 'extra_docs') if k in c}
+    d = {k: c[k] for k in ('root', 'value', 'seed', 'n_mut', 'n_sys', 'extra_docs') if k in c}
     if extra is not None:
         d['extra_docs'] = extra
         d['n_mut'] = 0
+        d['n_sys'] = 0
     return d
 
 
